@@ -162,11 +162,13 @@ CLAIMED = {
              'exact_eval equals direct evaluation of the fully substituted expression for every partition and order; the '
              'reference parser realises the 14-row precedence table; literal decoders are positional / little-endian. Tied '
              'to the source by tables regenerated with Python ast on every run and by an exhaustive operator-pair campaign '
-             'plus a random campaign evaluated in Coq.',
+             'plus a random campaign evaluated in Coq. Source tie (Properties/C12_source.v): Expr.eval_new and Expr.exact_eval '
+             'are re-translated from the current Python source on every run (IR of Model/PyIR.v) and proved to return exactly '
+             'what Model/Expr.v returns for every tree, table and call depth.',
         design_ref='DESIGN.md section 4, C12',
         note='Coq kernel + vm_compute. CPython int semantics, sly\'s LALR/regex engine and error-message construction are tied '
              'by campaign only. Operands bounded to 4096-bit intermediates in the campaign. F15 fixed.',
-        technique='Coq theorems on an expression model + regenerated-facts tie + exhaustive pair / random correspondence'),
+        technique='Coq theorems on an expression model + Python-source translators (tables and evaluation recursion) with kernel-checked equality to the model + exhaustive pair / random correspondence'),
     'C07': dict(
         category='proof',
         text='C07_native_layout_independent / C07_native_loops_ok / C07_native_decide_storage / C01_native_ring_readout '
